@@ -64,6 +64,8 @@ def batch(args):
     seqs, states, trigrams = set(), set(), set()
     state_changing = set(world_cls.STATE_CHANGING)
     want_digests = args.get('want_digests', False)
+    record_all = args.get('record_all', False)      # keep every run's ops: the failing run may need its predecessors
+    history = []
     for idx, run_seed in args['runs']:
         if time.monotonic() > deadline:
             out['stopped_early'] = True
@@ -96,6 +98,26 @@ def batch(args):
         if res.harness_error:
             out['harness_error'] = {'run_seed': run_seed, 'trace': res.harness_error}
             break
+        if record_all and res.violation:
+            v = res.violation
+            path = os.path.join(args['out_dir'], '%d.json' % run_seed)
+            doc = {
+                'property': prop, 'invariant': v['invariant'], 'run_seed': run_seed, 'hashseed': hashseed, 'tier': tier,
+                'prelude': history, 'swarm': res.swarm, 'ops': res.ops, 'original_ops': res.ops,
+                'original_swarm': res.swarm, 'original_len': len(res.ops), 'minimised_len': len(res.ops),
+                'original_prelude_runs': len(history), 'replays_used': 0,
+                'expect': {'invariant': v['invariant'], 'step': v['step'], 'message': v['message'],
+                           'event_digest': res.event_digest},
+                'pmutt_repo': os.environ.get('SIMLAB_REPO', '/repo'),
+            }
+            os.makedirs(args['out_dir'], exist_ok=True)
+            with open(path, 'w') as f:
+                json.dump(doc, f, indent=1)
+            out['violation'] = {'run_seed': run_seed, 'replay': path, 'invariant': v['invariant'],
+                                'message': v['message'], 'original_len': len(res.ops), 'minimised_len': len(res.ops)}
+            break
+        if record_all:
+            history.append({'run_seed': run_seed, 'swarm': res.swarm, 'ops': res.ops})
         if res.violation:
             v = res.violation
             faulthandler.dump_traceback_later(args.get('shrink_wall_s', 120) + 60, exit=True)
@@ -151,7 +173,11 @@ def replay(path):
     hashseed = int(os.environ.get('PYTHONHASHSEED', '0') or 0)
     if hashseed != doc['hashseed']:
         raise SystemExit('HARNESS-ERROR replay needs PYTHONHASHSEED=%d' % doc['hashseed'])
-    faulthandler.dump_traceback_later(300, exit=True)
+    faulthandler.dump_traceback_later(600, exit=True)
+    for pre in doc.get('prelude') or []:
+        # earlier runs of the same process: what they leave behind in the library (module globals, default
+        # arguments, caches) is part of the history that the failing run continues
+        run_replay(world_cls, doc['property'], pre['swarm'], pre['ops'], hashseed, run_seed=pre.get('run_seed', 0))
     res = run_replay(world_cls, doc['property'], doc['swarm'], doc['ops'], hashseed,
                      run_seed=doc.get('run_seed', 0))
     faulthandler.cancel_dump_traceback_later()
